@@ -16,7 +16,7 @@ E = _mon.events
 
 _SIM = None          # the Sim that currently owns the callbacks (or None)
 _installed = False
-_extra = {}          # event -> callable, engine-specific recorders (packrat)
+LINE_EXTRA = None    # engine-specific recorder called on every counted LINE event (packrat)
 
 INF = float('inf')
 
@@ -164,6 +164,8 @@ def _on_line(code, line):
     if n > t.deadline:
         t.deadline = INF  # raise once; the operation wrapper re-arms it
         raise StepBudget()
+    if LINE_EXTRA is not None:
+        LINE_EXTRA()
     if s >= sim.next_check:
         o = sim.policy.on_step(sim, t, code, line)
         if o is not None:
